@@ -11,9 +11,11 @@
    goes down.  Here this is the explicit outcome [Cr]; [step] turns it into the
    output marker [OCrash] and a server that is no longer [up].
 
-   The boolean [fx] selects between the handlers of the code as it is
-   ([fx = false], "current", including defect D4) and the repaired handlers of
-   fixes/D4.patch ([fx = true], "fixed"). *)
+   The [variant] selects between the handlers of the code as it is ([Cur],
+   "current", including defect D4), the repaired handlers of fixes/D4.patch
+   ([Fix false], "fixed") and the handlers of fixes/D4.patch + fixes/C13-D15.patch
+   ([Fix true], "fixed-drop": a cancelled task is removed from `tasks` and
+   `mailbox_to_task_dict` as well, so late ERROR / LOG messages for it are dropped). *)
 From Coq Require Import List Arith Bool.
 Import ListNotations.
 
@@ -89,6 +91,9 @@ Inductive out :=
 | OLog (c l : nat)                  (* (c, LOG, l) *)
 | OCrash.                           (* exception reached ServerBase.run: system error + shutdown *)
 
+Inductive variant := Cur | Fix (dc : bool).
+Definition is_fix (v : variant) : bool := match v with Cur => false | Fix _ => true end.
+
 Inductive res := Ok (s : state) (o : list out) | Cr (o : list out).
 
 Definition bind (r : res) (f : state -> res) : res :=
@@ -138,8 +143,9 @@ Definition cancel_cur (t : nat) (s : state) : res :=
     end
   end.
 
-(* handle_cancel_comp_task(conn, request) of fixes/D4.patch *)
-Definition cancel_fix (c t : nat) (s : state) : res :=
+(* handle_cancel_comp_task(conn, request) of fixes/D4.patch; with [dc] also fixes/C13-D15.patch:
+   mailbox_id = self.tasks.pop(request)[0] ... self.mailbox_to_task_dict.pop(mailbox_id) *)
+Definition cancel_fix (dc : bool) (c t : nat) (s : state) : res :=
   match get c (clients s) with
   | None => Cr []
   | Some ts =>
@@ -151,7 +157,13 @@ Definition cancel_fix (c t : nat) (s : state) : res :=
         | None => Cr []
         | Some _ =>
           let s2 := with_clients (with_boxes s (del mb (boxes s))) (set c (srem t ts) (clients s)) in
-          Ok s2 (OBcast mb :: ack c s2)
+          if dc then
+            match get mb (m2t s) with
+            | None => Cr []
+            | Some _ => let s3 := with_tasks s2 (del t (tasks s2)) (del mb (m2t s2)) in
+                        Ok s3 (OBcast mb :: ack c s3)
+            end
+          else Ok s2 (OBcast mb :: ack c s2)
         end
       end
     else Ok s (ack c s)
@@ -169,26 +181,28 @@ Definition pop_tasks_of (c : nat) (s : state) : res :=
   foreach (filter (fun p => snd (snd p) =? c) (tasks s)) pop_task s.
 
 (* handle_disconnect (super(): unregister + conn.close()) *)
-Definition disconnect (fx : bool) (c : nat) (s : state) : res :=
+Definition disconnect (v : variant) (c : nat) (s : state) : res :=
   let s1 := with_closed s (c :: closed s) in
   match get c (clients s1) with
   | None => Cr []                                            (* self.clients.pop(conn) / self.clients[conn] *)
   | Some ts =>
-    if fx then
-      bind (foreach ts (cancel_fix c) s1)
+    match v with
+    | Fix dc =>
+      bind (foreach ts (cancel_fix dc c) s1)
            (fun s2 => pop_tasks_of c (with_clients s2 (del c (clients s2))))
-    else
+    | Cur =>
       bind (foreach ts cancel_cur (with_clients s1 (del c (clients s1))))
            (pop_tasks_of c)
+    end
   end.
 
 (* handle_request *)
-Definition request (fx : bool) (c t : nat) (s : state) : res :=
+Definition request (v : variant) (c t : nat) (s : state) : res :=
   match get c (clients s) with
   | None => Cr []
   | Some ts =>
     if negb (mem t ts) || negb (haskey t (tasks s)) then
-      bind (Ok s [OErrUnknown c]) (disconnect fx c)          (* 'Unknown task.' ; Bad client *)
+      bind (Ok s [OErrUnknown c]) (disconnect v c)          (* 'Unknown task.' ; Bad client *)
     else
       match get t (tasks s) with
       | None => Cr []
@@ -203,13 +217,13 @@ Definition request (fx : bool) (c t : nat) (s : state) : res :=
   end.
 
 (* handle_status: the code as it is has no `return` after answering UNKNOWN *)
-Definition status (fx : bool) (c t : nat) (s : state) : res :=
+Definition status (v : variant) (c t : nat) (s : state) : res :=
   match get c (clients s) with
   | None => Cr []
   | Some ts =>
     let unk := negb (mem t ts) || negb (haskey t (tasks s)) in
     let pre := if unk then [OStatus c UNKNOWN] else [] in
-    if unk && fx then Ok s pre
+    if unk && is_fix v then Ok s pre
     else
       match get t (tasks s) with
       | None => Cr pre
@@ -258,33 +272,33 @@ Definition forward (mk : nat -> out) (mb : nat) (s : state) : res :=
     end
   end.
 
-Definition handle (fx : bool) (e : event) (s : state) : res :=
+Definition handle (v : variant) (e : event) (s : state) : res :=
   match e with
   | Connect c => Ok (with_clients s (set c [] (clients s))) []
-  | Disconnect c => disconnect fx c s
+  | Disconnect c => disconnect v c s
   | Submit c t => new_task c t s
-  | Request c t => request fx c t s
-  | Status c t => status fx c t s
-  | Cancel c t => if fx then cancel_fix c t s else cancel_cur t s
+  | Request c t => request v c t s
+  | Status c t => status v c t s
+  | Cancel c t => match v with Fix dc => cancel_fix dc c t s | Cur => cancel_cur t s end
   | Result mb v => result mb v s
   | Error mb m => forward (fun c => OError c m) mb s
   | Log mb l => forward (fun c => OLog c l) mb s
   end.
 
-Definition step (fx : bool) (s : state) (e : event) : state * list out :=
+Definition step (v : variant) (s : state) (e : event) : state * list out :=
   if up s then
-    match handle fx e s with
+    match handle v e s with
     | Ok s' o => (s', o)
     | Cr o => (kill s, o ++ [OCrash])
     end
   else (s, []).
 
 (* the run of an event list: final state and the outputs of every event *)
-Fixpoint run (fx : bool) (s : state) (es : list event) : state * list (list out) :=
+Fixpoint run (v : variant) (s : state) (es : list event) : state * list (list out) :=
   match es with
   | [] => (s, [])
-  | e :: r => let '(s1, o) := step fx s e in
-              let '(s2, os) := run fx s1 r in (s2, o :: os)
+  | e :: r => let '(s1, o) := step v s e in
+              let '(s2, os) := run v s1 r in (s2, o :: os)
   end.
 
 (* ------------------------------------------------------- the specification *)
@@ -316,6 +330,10 @@ Definition own_open (sp : spec) (c t : nat) : bool := is_open (st sp t) && (owne
 
 Definition set_st sp t x := mkSpec (upd (st sp) t x) (owner sp) (mbx sp) (tom sp) (cst sp) (count sp).
 
+(* [dc]: a cancelled task is forgotten at once (no ERROR / LOG for it is forwarded any more) *)
+Definition forget (sp : spec) (t : nat) : spec :=
+  mkSpec (upd (st sp) t TUnknown) (owner sp) (mbx sp) (upd (tom sp) (mbx sp t) None) (cst sp) (count sp).
+
 (* the client is dropped: every task of it is forgotten *)
 Definition drop (sp : spec) (c : nat) : spec :=
   mkSpec (fun t => if owner sp t =? c then TUnknown else st sp t) (owner sp) (mbx sp)
@@ -325,7 +343,7 @@ Definition drop (sp : spec) (c : nat) : spec :=
          (upd (cst sp) c CClosed) (count sp).
 
 (* answers are the client-visible outputs *)
-Definition sstep (sp : spec) (e : event) : spec * list out :=
+Definition sstep (dc : bool) (sp : spec) (e : event) : spec * list out :=
   match e with
   | Connect c => (mkSpec (st sp) (owner sp) (mbx sp) (tom sp) (upd (cst sp) c CConnected) (count sp), [])
   | Disconnect c => (drop sp c, [])
@@ -344,7 +362,7 @@ Definition sstep (sp : spec) (e : event) : spec * list out :=
                        then match st sp t with TDone _ => DONE | _ => RUNNING end
                        else UNKNOWN)])
   | Cancel c t =>
-      ((if own_open sp c t then set_st sp t TCancelled else sp), [OCancelAck c])
+      ((if own_open sp c t then (if dc then forget sp t else set_st sp t TCancelled) else sp), [OCancelAck c])
   | Result mb v =>
       match tom sp mb with
       | Some t =>
@@ -376,17 +394,17 @@ Definition wf_ev (sp : spec) (e : event) : bool :=
   | Result _ _ | Error _ _ | Log _ _ => true
   end.
 
-Fixpoint srun (sp : spec) (es : list event) : spec * list (list out) :=
+Fixpoint srun (dc : bool) (sp : spec) (es : list event) : spec * list (list out) :=
   match es with
   | [] => (sp, [])
-  | e :: r => let '(sp1, o) := sstep sp e in
-              let '(sp2, os) := srun sp1 r in (sp2, o :: os)
+  | e :: r => let '(sp1, o) := sstep dc sp e in
+              let '(sp2, os) := srun dc sp1 r in (sp2, o :: os)
   end.
 
-Fixpoint wf_run (sp : spec) (es : list event) : bool :=
+Fixpoint wf_run (dc : bool) (sp : spec) (es : list event) : bool :=
   match es with
   | [] => true
-  | e :: r => wf_ev sp e && wf_run (fst (sstep sp e)) r
+  | e :: r => wf_ev sp e && wf_run dc (fst (sstep dc sp e)) r
   end.
 
 Definition is_answer (o : out) : bool :=
